@@ -45,6 +45,12 @@ func (t SimTimeType) ValueFromTerraform(_ context.Context, in tftypes.Value) (at
 	return SimTimeValue{Value: v}, nil
 }
 
+// UseSimTime is a type constructor (time_type.type_constructor names it in some configurations).
+func UseSimTime() SimTimeType { return SimTimeType{} }
+
+// UseSimDuration likewise for duration_type.
+func UseSimDuration() SimDurationType { return SimDurationType{} }
+
 type SimTimeValue struct {
 	Unknown bool
 	Null    bool
